@@ -90,3 +90,33 @@ def mk_bool(t):
 
 def mk_str(t):
     return V.str_(t)
+
+
+def set_nonempty(s):
+    """z3 Bool: the set (SetS term) has a member.  Sets of pairs (comprehension results `Lambda y. is_pair(y) & R(fst y,
+    snd y)`) get the two-variable form  exists a b. R(a, b): its body contains the relation applied to plain variables,
+    which is what E-matching can instantiate from a ground R(u, v)."""
+    if z3.is_quantifier(s) and s.is_lambda() and s.num_vars() == 1:
+        y = fresh("sy", V)
+        body = z3.substitute_vars(s.body(), y)
+        conj = body.children() if z3.is_and(body) else [body]
+        if any(c.eq(V.is_pair(y)) for c in conj):
+            a, b = fresh("sa", V), fresh("sb", V)
+            rest = z3.simplify(z3.substitute(z3.And(*[c for c in conj if not c.eq(V.is_pair(y))]) if len(conj) > 1 else z3.BoolVal(True), (y, V.pair(a, b))))
+            return z3.Exists([a, b], rest)
+    x = fresh("w", V)
+    return z3.Exists([x], s[x])
+
+
+def pair_set_body(s):
+    """if s is a comprehension-style set of pairs  Lambda y. is_pair(y) & R(fst y, snd y)  return (a, b, R(a, b)) else None"""
+    if z3.is_quantifier(s) and s.is_lambda() and s.num_vars() == 1:
+        y = fresh("sy", V)
+        body = z3.substitute_vars(s.body(), y)
+        conj = body.children() if z3.is_and(body) else [body]
+        if any(c.eq(V.is_pair(y)) for c in conj):
+            a, b = fresh("sa", V), fresh("sb", V)
+            rest = [c for c in conj if not c.eq(V.is_pair(y))]
+            r = z3.And(*rest) if len(rest) > 1 else (rest[0] if rest else z3.BoolVal(True))
+            return a, b, z3.simplify(z3.substitute(r, (y, V.pair(a, b))))
+    return None
